@@ -68,6 +68,11 @@ def single_result_shapes():
     mk("earlier_stage_result_with_other_step", [gen.plugin_step("A", Expr(In("tag"))), gen.plugin_step("B", Expr(In("tag"))),
                                                 gen.plugin_step("C", gen.tagref("B"), extra_input={"a": {"e": Expr(Ref("A", "enabling", "resolved", "enabled")), "s": Expr(Ref("A", "starting", "started"))}})],
        {"success": {"c": Expr(Ref("C", "outputs", "success")), "e": Expr(Ref("A", "enabling", "resolved")), "b": gen.tagref("B")}}, scripts_extra={"B": {"deploys": [{}, {"delay_ms": 30}]}})
+    # a loop with fewer slots than items in which one item fails (whichever item gets a slot first, the others must still run)
+    sub4 = gen.sub_program("sub4.yaml", 1)
+    mk("loop_one_item_fails_few_slots", [Step("loop", "foreach", sub=sub4, items=Expr(In("items")), parallelism=1)],
+       {"success": {"d": Expr(Ref("loop", "outputs", "success", "data"))}, "failed": {"e": Expr(Ref("loop", "failed", "error"))}},
+       inp={"tag": "T1", "items": [{"tag": "i%d" % k} for k in range(4)]}, scripts_extra={"sub4_w0": {"exec_by_tag": {"i2": {"outcome": "crash"}}}})
     mk("no_output_possible", [gen.plugin_step("a", Expr(In("tag"))), gen.plugin_step("b", gen.tagref("a"))],
        {"success": {"b": gen.tagref("b")}}, outcome={"a": "error"})
     return out
@@ -156,7 +161,14 @@ def run(check):
         for case, sem, g in rec_items:
             o = rec.get(case["id"], {})
             if "result" not in o:
-                check.inconclusive_case(case["id"], "record run died: %s" % (o.get("death", {}).get("key")))
+                d = o.get("death", {})
+                check.count()
+                if d.get("kind") == "deadlock":
+                    check.report("sched@none->hang", "undelayed record run of %s never returned: %s" % (g["shape"], d.get("key")), {"case": case, "detail": d.get("detail", "")[:3000]})
+                elif d.get("kind") in ("panic", "fatal"):
+                    check.report("sched@none->crash:" + str(d.get("key"))[:80], "undelayed record run of %s: process died: %s" % (g["shape"], d.get("message", "")[:200]), {"case": case, "detail": d.get("detail", "")[:3000]})
+                else:
+                    check.inconclusive_case(case["id"], "record run died: %s" % d.get("key"))
                 continue
             v = verdict(sem, o["result"]["runs"][0])
             check.count()
